@@ -99,6 +99,25 @@ func c12Child(args []string) {
 		binary.BigEndian.PutUint64(b[:], uint64(idx))
 		pf.WriteAt(b[:], 0)
 	}
+	// outputs of earlier operations are kept and re-verified after later ones: a codec handing out
+	// memory it reuses shows up as an earlier result changing
+	type kept struct {
+		what string
+		got  []byte
+		want []byte
+	}
+	var ring []kept
+	keep := func(what string, got, want []byte) {
+		for _, k := range ring {
+			if !bytes.Equal(k.got, k.want) {
+				res.add(c09Viol{Kind: "earlier_result_changed_by_later_operation", Params: map[string]string{"what": k.what}, Text: fmt.Sprintf("the %s result of an earlier call (%d bytes) changed after a later %s call", k.what, len(k.want), what)})
+			}
+		}
+		ring = append(ring, kept{what, got, append([]byte{}, want...)})
+		if len(ring) > 6 {
+			ring = ring[1:]
+		}
+	}
 	kinds := []string{"rand", "text", "runs", "zero"}
 	lengths := c12Lengths(rnd, scale > 1)
 	// ---- (1) pike's encoders at every level
@@ -131,6 +150,10 @@ func c12Child(args []string) {
 			}{{"gzip", gz, srv.Gunzip, hx.GunzipBytes}, {"br", br, srv.BrotliDecode, hx.UnbrotliBytes}} {
 				d1, err1 := t.own(t.data)
 				d2, err2 := t.std(t.data)
+				if err1 == nil && bytes.Equal(d1, x) {
+					keep("decode:"+t.name, d1, x)
+					keep("encode:"+t.name, t.data, t.data)
+				}
 				if err1 != nil || err2 != nil || !bytes.Equal(d1, x) || !bytes.Equal(d2, x) {
 					res.add(c09Viol{Kind: "encoder_output_not_restored", Params: map[string]string{"format": t.name, "level": fmt.Sprint(level)}, Text: fmt.Sprintf("%s level %d of %d bytes: pike decoder err=%v equal=%v; standard decoder err=%v equal=%v", t.name, level, n, err1, bytes.Equal(d1, x), err2, bytes.Equal(d2, x)), Case: cs})
 				}
@@ -199,6 +222,7 @@ func c12Child(args []string) {
 					continue
 				}
 				res.Decoded[f]++
+				keep("decode:"+f, dec, x)
 				if ratio > res.MaxRatio[f] {
 					res.MaxRatio[f] = ratio
 				}
